@@ -16,10 +16,14 @@ The generated list is compared, inside Coq, with the hand-reviewed list of write
 import ast
 import os
 
-SCOPE = ["sidemantic/sql", "sidemantic/core", "sidemantic/validation.py"]
+SCOPE = ["sidemantic/sql", "sidemantic/core", "sidemantic/validation.py", "sidemantic/adapters/sidemantic.py", "sidemantic/loaders.py"]
 ENTRIES = {("SemanticLayer", "compile"), ("SemanticLayer", "explain"), ("SemanticLayer", "query"), ("SemanticLayer", "sql"),
            ("SQLGenerator", "generate"), ("SQLGenerator", "generate_view"), ("QueryRewriter", "rewrite"),
-           ("PreAggregationMatcher", "find_matching_preagg"), ("PreAggregationMatcher", "can_satisfy_query"), ("PreAggregationMatcher", "explain_query")}
+           ("PreAggregationMatcher", "find_matching_preagg"), ("PreAggregationMatcher", "can_satisfy_query"), ("PreAggregationMatcher", "explain_query"),
+           }
+# loading and exporting definitions build NEW objects (stores into the graph under construction are their job): only what is kept OUTSIDE the objects they return is listed
+# for them -- module-level containers and functools caches
+LOAD_ENTRIES = {("SidemanticAdapter", "parse"), ("SidemanticAdapter", "export"), (None, "load_from_directory")}
 MUTATORS = {"append", "extend", "insert", "add", "update", "setdefault", "pop", "popitem", "clear", "remove", "discard", "sort", "reverse",
             "appendleft", "popleft", "extendleft", "rotate", "__setitem__", "__delitem__", "move_to_end", "difference_update", "intersection_update",
             "symmetric_difference_update"}
@@ -198,7 +202,9 @@ class Analyzer(ast.NodeVisitor):
             if fn.attr in MUTATORS:
                 self.effect("mutate", self.t(fn.value), path(fn))
             recv = "self" if isinstance(fn.value, ast.Name) and fn.value.id in ("self", "cls") else "graph" if (isinstance(fn.value, ast.Attribute) and fn.value.attr == "graph") else "other"
-            self.f.calls.append((fn.attr, recv, [self.t(a) for a in e.args], {k.arg: self.t(k.value) for k in e.keywords if k.arg}))
+            # ClassName.method(...): the class is known by name
+            rname = fn.value.id if isinstance(fn.value, ast.Name) and fn.value.id not in ("self", "cls") else None
+            self.f.calls.append((fn.attr, recv if rname is None else "class:" + rname, [self.t(a) for a in e.args], {k.arg: self.t(k.value) for k in e.keywords if k.arg}))
 
     def generic_expr(self, e):
         """visit an expression for the calls inside it"""
@@ -379,6 +385,11 @@ def resolve(funcs, caller, name, recv):
         if same:
             return same
         return [f for f in top if f.node.name == name and f.cls is None] + [f for f in top if f.cls == name and f.node.name == "__init__"]
+    if recv.startswith("class:"):
+        named = [f for f in top if f.cls == recv[6:] and f.node.name == name]
+        if named or any(f.cls == recv[6:] for f in top):
+            return named                                # a class of the scanned files, called by name: its own method (or an inherited one outside the scan)
+        recv = "other"
     if recv == "self":
         own = [f for f in top if f.cls == caller.cls and f.node.name == name]
         if own:
@@ -405,6 +416,8 @@ def close(funcs):
                     if not g.mut_params:
                         continue
                     ps = [p for p in g.params if p not in ("self", "cls")] if g.cls is not None and recv != "bare" or (g.node.name == "__init__") else list(g.params)
+                    if recv.startswith("class:") and g.cls is not None and not any(isinstance(d, ast.Name) and d.id in ("staticmethod", "classmethod") for d in g.node.decorator_list):
+                        ps = list(g.params)            # Class.method(obj, ...): the instance is passed explicitly
                     if g.cls is not None and recv == "bare" and g.node.name != "__init__" and ps and ps[0] in ("self", "cls"):
                         ps = ps[1:]
                     pairs = list(zip(ps, args)) + [(k, v) for k, v in kws.items()]
@@ -419,9 +432,10 @@ def close(funcs):
                                         f.mut_params.add(r[6:])
 
 
-def reachable(funcs):
+def reachable(funcs, entries=None):
+    entries = ENTRIES if entries is None else entries
     top = {k: f for k, f in funcs.items() if f.parent is None}
-    seen, todo = set(), [f for f in top.values() if (f.cls, f.node.name) in ENTRIES]
+    seen, todo = set(), [f for f in top.values() if (f.cls, f.node.name) in entries]
     while todo:
         f = todo.pop()
         if f.key in seen:
@@ -450,6 +464,10 @@ def table(repo):
                 rows.add((k, "global", root[7:] + " " + detail))
             elif entry:
                 rows.add((k, "argument", root[6:] + " " + detail))
+    for k in reachable(funcs, LOAD_ENTRIES) - reach:
+        for (kind, root, detail) in funcs[k].effects:
+            if root.startswith("global:"):
+                rows.add((k, "global", root[7:] + " " + detail))
     for key, d in decorators:
         rows.add((key, "decorator", d))
     return sorted(rows), len(funcs), len(reach)
